@@ -18,7 +18,9 @@ import (
 	"os"
 	"os/exec"
 	"runtime"
+	"runtime/debug"
 	"sort"
+	"strings"
 	"sync"
 	"time"
 )
@@ -47,7 +49,17 @@ type reply struct {
 	Steps   int      `json:"steps"`
 	Err     string   `json:"err,omitempty"`
 	Recycle bool     `json:"recycle,omitempty"`
+	/* Unstable: replaying the recorded prefix kept ending in another state
+	than recorded.  Happens (rarely) when the operating system suspends the
+	worker thread inside a "simultaneous" pair of actions and Go's monitor
+	then preempts the harness goroutine between the two; the state that was
+	recorded is then the one of the sequential order, which is explored
+	anyway.  The master drops such nodes and counts them. */
+	Unstable bool `json:"unstable,omitempty"`
 }
+
+// replayRetries is how often a diverging replay is retried.
+const replayRetries = 4
 
 // RViol is a violation with the history that shows it.
 type RViol struct {
@@ -112,7 +124,7 @@ func RunHistory(p *Profile, hist []Event, expect []string, trace io.Writer) (w *
 		}
 		if nil != expect && i < len(expect) && expect[i] != canons[i] {
 			w.Close()
-			return w, canons, fmt.Errorf("divergence: canon after step %d (%s) differs from the recorded one when replaying %s", i, e, HistString(hist))
+			return w, canons, fmt.Errorf("divergence: canon after step %d (%s) differs from the recorded one when replaying %s: now %s", i, e, HistString(hist), c)
 		}
 	}
 	return w, canons, nil
@@ -134,10 +146,26 @@ func expand(p *Profile, t task) (rp reply) {
 			rp.Viols = append(rp.Viols, RViol{Prop: v.Prop, Sig: v.Sig, What: v.What, Hist: append([]Event{}, w.Hist...)})
 		}
 	}
-	w, canons, err := RunHistory(p, t.Hist, t.Canons, nil)
-	rp.Execs++
-	rp.Steps += len(t.Hist)
-	if nil != err {
+	var (
+		w      *World
+		canons []string
+		err    error
+	)
+	for try := 0; ; try++ {
+		w, canons, err = RunHistory(p, t.Hist, t.Canons, nil)
+		rp.Execs++
+		rp.Steps += len(t.Hist)
+		if nil == err {
+			break
+		}
+		if try < replayRetries && strings.HasPrefix(err.Error(), "divergence") {
+			continue
+		}
+		if strings.HasPrefix(err.Error(), "divergence") {
+			rp.Unstable = true
+			rp.Err = err.Error()
+			return
+		}
 		rp.Err = err.Error()
 		return
 	}
@@ -152,10 +180,19 @@ func expand(p *Profile, t task) (rp reply) {
 		evs = nil
 	}
 	for _, e := range evs {
-		w2, _, err := RunHistory(p, t.Hist, canons, nil)
-		rp.Execs++
-		rp.Steps += len(t.Hist) + 1
+		var w2 *World
+		for try := 0; ; try++ {
+			w2, _, err = RunHistory(p, t.Hist, canons, nil)
+			rp.Execs++
+			rp.Steps += len(t.Hist) + 1
+			if nil == err || try >= replayRetries || !strings.HasPrefix(err.Error(), "divergence") {
+				break
+			}
+		}
 		if nil != err {
+			if strings.HasPrefix(err.Error(), "divergence") {
+				rp.Unstable = true
+			}
 			rp.Err = err.Error()
 			return
 		}
@@ -185,9 +222,12 @@ func expand(p *Profile, t task) (rp reply) {
 // WorkerMain is the worker side: tasks on stdin, replies on stdout.
 func WorkerMain() int {
 	runtime.GOMAXPROCS(1)
+	/* Collections happen between tasks, never inside a step. */
+	debug.SetGCPercent(-1)
 	in := bufio.NewReaderSize(os.Stdin, 1<<20)
 	out := bufio.NewWriter(os.Stdout)
 	var p *Profile
+	nTasks := 0
 	dec := json.NewDecoder(in)
 	enc := json.NewEncoder(out)
 	for {
@@ -202,6 +242,9 @@ func WorkerMain() int {
 			p = t.Profile
 		}
 		rp := expand(p, t)
+		if nTasks++; 0 == nTasks%50 {
+			runtime.GC()
+		}
 		if err := enc.Encode(rp); nil != err {
 			return 2
 		}
@@ -278,17 +321,19 @@ func (wk *worker) stop() {
 
 // Result is what an exploration covered.
 type Result struct {
-	States      int
-	Transitions int
-	Execs       int
-	Steps       int
-	MaxDepth    int
-	Exhaustive  bool
-	CapNote     string
-	Viols       []RViol /* Shortest history per (prop, signature). */
-	Samples     []string
-	Confirmed   int /* Histories re-run to confirm determinism. */
-	PerDepth    []int
+	States       int
+	Transitions  int
+	Execs        int
+	Steps        int
+	MaxDepth     int
+	Exhaustive   bool
+	CapNote      string
+	Viols        []RViol /* Shortest history per (prop, signature). */
+	Samples      []string
+	Confirmed    int /* Histories re-run to confirm determinism. */
+	PerDepth     []int
+	Unstable     int /* Nodes dropped because their prefix would not replay (see reply.Unstable). */
+	UnstableNote string
 }
 
 // Explore runs the BFS for profile p with nproc worker processes, stopping
@@ -354,6 +399,13 @@ func Explore(p *Profile, nproc int, deadline time.Time) (*Result, error) {
 					mu.Unlock()
 					rp, err := wk.do(task{Hist: n.hist, Canons: n.canons})
 					mu.Lock()
+					if nil == err && rp.Unstable {
+						res.Unstable++
+						res.UnstableNote = rp.Err
+						res.Execs += rp.Execs
+						mu.Unlock()
+						continue
+					}
 					if nil == err && "" != rp.Err {
 						err = fmt.Errorf("%s", rp.Err)
 					}
@@ -406,6 +458,9 @@ func Explore(p *Profile, nproc int, deadline time.Time) (*Result, error) {
 		res.MaxDepth = depth
 	}
 	res.States++ /* The initial state. */
+	if res.Unstable > 2+res.States/500 {
+		return res, fmt.Errorf("harness nondeterminism: %d of %d states would not replay; last: %s", res.Unstable, res.States, res.UnstableNote)
+	}
 
 	/* Confirm every violation: the same history must fail the same way
 	five times on fresh worlds. */
